@@ -1,0 +1,131 @@
+//go:build verif && !(js && wasm)
+// +build verif
+// +build !js !wasm
+
+package tcell
+
+import (
+	"bytes"
+
+	"github.com/gdamore/tcell/v2/terminfo"
+)
+
+// Verification hooks (build tag "verif" only).  They add no behaviour: they
+// construct a terminfo screen without a tty and expose the real input parser
+// and the tables the constructor builds, so that checks can drive the same
+// code synchronously.
+
+// VerifParser wraps a tScreen that has no tty; Feed calls the real
+// collectEventsFromInput.
+type VerifParser struct {
+	t   *tScreen
+	buf *bytes.Buffer
+}
+
+func verifScreen(ti *terminfo.Terminfo) *tScreen {
+	c := *ti // prepareKeys edits the description (XTermLike); work on a copy
+	t := &tScreen{ti: &c}
+	t.keyexist = make(map[Key]bool)
+	t.keycodes = make(map[string]*tKeyCode)
+	if len(c.Mouse) > 0 {
+		t.mouse = []byte(c.Mouse)
+	}
+	t.prepareKeys()
+	t.buildAcsMap()
+	t.fallback = make(map[rune]string)
+	for k, v := range RuneFallbacks {
+		t.fallback[k] = v
+	}
+	return t
+}
+
+// NewVerifParser builds the parser state of a terminfo screen for the given
+// description, character set and size (the size only matters for mouse clipping).
+func NewVerifParser(ti *terminfo.Terminfo, charset string, w, h int) *VerifParser {
+	t := verifScreen(ti)
+	t.charset = charset
+	if enc := GetEncoding(charset); enc != nil {
+		t.encoder = enc.NewEncoder()
+		t.decoder = enc.NewDecoder()
+	} else {
+		return nil
+	}
+	t.cells.Resize(w, h)
+	t.w, t.h = w, h
+	return &VerifParser{t: t, buf: &bytes.Buffer{}}
+}
+
+// Feed appends chunk to the input buffer and runs the real parser over it,
+// returning the decoded events and the number of bytes still buffered.
+func (p *VerifParser) Feed(chunk []byte, expire bool) ([]Event, int) {
+	p.buf.Write(chunk)
+	evs := p.t.collectEventsFromInput(p.buf, expire)
+	return evs, p.buf.Len()
+}
+
+// VerifKeyTable returns a copy of the key table built for ti: sequence -> {key, modifiers}.
+func VerifKeyTable(ti *terminfo.Terminfo) map[string][2]int {
+	t := verifScreen(ti)
+	m := make(map[string][2]int, len(t.keycodes))
+	for k, v := range t.keycodes {
+		m[k] = [2]int{int(v.key), int(v.mod)}
+	}
+	return m
+}
+
+// VerifKeyExist returns the set of keys HasKey reports for ti.
+func VerifKeyExist(ti *terminfo.Terminfo) map[int]bool {
+	t := verifScreen(ti)
+	m := make(map[int]bool, len(t.keyexist))
+	for k, v := range t.keyexist {
+		m[int(k)] = v
+	}
+	return m
+}
+
+// VerifAcsMap returns a copy of the alternate-character-set map built for ti.
+func VerifAcsMap(ti *terminfo.Terminfo) map[rune]string {
+	t := verifScreen(ti)
+	m := make(map[rune]string, len(t.acs))
+	for k, v := range t.acs {
+		m[k] = v
+	}
+	return m
+}
+
+// VerifACSNames returns a copy of the terminfo acsc-name table.
+func VerifACSNames() map[byte]rune {
+	m := make(map[byte]rune, len(vtACSNames))
+	for k, v := range vtACSNames {
+		m[k] = v
+	}
+	return m
+}
+
+// VerifDerived returns the control strings the constructor synthesises for ti
+// (bracketed paste, focus, underline styles/colours, hyperlinks, title,
+// window size, cursor styles and colours, clipboard).
+func VerifDerived(ti *terminfo.Terminfo) map[string]string {
+	t := verifScreen(ti)
+	m := map[string]string{
+		"enablePaste": t.enablePaste, "disablePaste": t.disablePaste,
+		"enterUrl": t.enterUrl, "exitUrl": t.exitUrl, "setWinSize": t.setWinSize,
+		"enableFocus": t.enableFocus, "disableFocus": t.disableFocus,
+		"doubleUnder": t.doubleUnder, "curlyUnder": t.curlyUnder, "dottedUnder": t.dottedUnder, "dashedUnder": t.dashedUnder,
+		"underColor": t.underColor, "underRGB": t.underRGB, "underFg": t.underFg,
+		"cursorRGB": t.cursorRGB, "cursorFg": t.cursorFg,
+		"setTitle": t.setTitle, "saveTitle": t.saveTitle, "restoreTitle": t.restoreTitle,
+		"setClipboard": t.setClipboard,
+	}
+	if t.cursorStyles != nil {
+		m["hasCursorStyles"] = "1"
+		names := []string{"Default", "BlinkingBlock", "SteadyBlock", "BlinkingUnderline", "SteadyUnderline", "BlinkingBar", "SteadyBar"}
+		for i, n := range names {
+			m["cursorStyle"+n] = t.cursorStyles[CursorStyle(i)]
+		}
+	}
+	if t.ti.XTermLike {
+		m["xtermLike"] = "1"
+	}
+	return m
+}
